@@ -90,8 +90,10 @@ def run(ctx):
     for (case, il), mo in zip(pend, ctx.model.ask(lines)):
         ctx.compare('triu', case, mo, il)
     extreme_stream(ctx)
+    large_stream(ctx)
     comm_stream(ctx)
     pipeline_stream(ctx)
+    subgroup_stream(ctx)
 
 
 def extreme_stream(ctx):
@@ -123,6 +125,83 @@ def extreme_stream(ctx):
         ctx.evaluations += 1
         ctx.case(('extreme', n, str(dtype), tuple(case['packed'][:5])), nontrivial=n >= 2)
         ctx.count('extreme-' + str(dtype).split('.')[-1])
+
+
+def large_stream(ctx):
+    """'every size n': sizes beyond any internal blocking of the index computation (oracle only: the statement itself)"""
+    from kfac.distributed import fill_triu, get_triu
+    rng = ctx.rng
+    sizes = [1023, 1024, 1025, rng.randrange(1026, 1600)] + ([2047, 2049, 3000] if ctx.thorough() else [rng.choice([2047, 2049])])
+    for n in sizes:
+        dtype = rng.choice([torch.float32, torch.float64])
+        i = torch.arange(n).view(-1, 1)
+        j = torch.arange(n).view(1, -1)
+        A = ((torch.minimum(i, j) * 31 + torch.maximum(i, j) * 7) % 8191).to(dtype)     # symmetric, position revealing
+        case = {'n': n, 'dtype': str(dtype), 'stream': 'large'}
+        try:
+            v = get_triu(A)
+            M = fill_triu(A.shape, v)
+        except Exception as e:  # noqa: BLE001
+            ctx.fail(f'get_triu/fill_triu raised {type(e).__name__}: {e}', case, 'raised')
+            continue
+        if v.numel() != n * (n + 1) // 2 or M.dtype != dtype or not torch.equal(M, A):
+            bad = (M != A).nonzero()
+            ctx.fail(f'fill_triu(get_triu(A)) != A for symmetric A of size {n} (first differing entry {bad[0].tolist() if len(bad) else None})',
+                     case, 'roundtrip-large')
+        ctx.evaluations += 1
+        ctx.case(('large', n, str(dtype)), nontrivial=True)
+        ctx.count('large-n')
+
+
+def subgroup_stream(ctx):
+    """symmetric broadcast / allreduce inside process groups whose members' group-local ranks differ from their global
+    ranks (e.g. group [2, 3] with source 3): the symmetric result equals the dense one on every member"""
+    from kfac.distributed import TorchDistributedCommunicator
+    rng = ctx.rng
+    for trial in range(ctx.budget(20, 200)):
+        world = rng.choice([3, 4, 4, 5, 6])
+        gsize = rng.randrange(2, world + 1)
+        members = sorted(rng.sample(range(world), gsize))
+        src = rng.choice(members)
+        n = rng.choice([1, 2, 3, 5])
+        dtype = rng.choice([torch.float32, torch.float64])
+        entry = rng.choice(['broadcast', 'broadcast', 'allreduce', 'allreduce_bucketed'])
+        case = {'world': world, 'group': members, 'src': src, 'n': n, 'dtype': str(dtype), 'entry': entry}
+
+        def prog(rank, members=members, src=src, n=n, dtype=dtype, entry=entry):
+            import torch.distributed as dist
+            g = dist.new_group(members)
+            if rank not in members:
+                return None
+            tdc = TorchDistributedCommunicator(bucket_cap_mb=25.0)
+            out = {}
+            for symflag in (True, False):
+                t = sym_matrix(n, dtype, 2**20) * (rank + 1) + 3
+                if entry == 'broadcast':
+                    f = tdc.broadcast(t, src=src, group=g, symmetric=symflag)
+                elif entry == 'allreduce':
+                    f = tdc.allreduce(t, group=g, symmetric=symflag)
+                else:
+                    f = tdc.allreduce_bucketed(t, group=g, symmetric=symflag)
+                    tdc.flush_allreduce_buckets()
+                out[symflag] = f.wait() if not isinstance(f, torch.Tensor) else f
+            return out
+
+        wd, res = simdist.run_world(world, prog, seed=ctx.seed * 331 + trial)
+        if wd.exceptions or wd.stalled or wd.errors:
+            ctx.fail(f'run failed: exc={wd.exceptions} stalled={wd.stalled} errors={wd.errors[:2]}', case, 'subgroup-run')
+            continue
+        for r in members:
+            want = sym_matrix(n, dtype, 2**20) * (src + 1) + 3 if entry == 'broadcast' else \
+                sum(sym_matrix(n, dtype, 2**20) * (m + 1) + 3 for m in members)
+            o = res[r]
+            if not torch.equal(o[True], o[False]) or not torch.equal(o[False], want):
+                ctx.fail(f'rank {r} of group {members}: symmetric {entry} (source {src}) differs from the dense one / the expected tensor',
+                         dict(case, schedule_seed=ctx.seed * 331 + trial), 'subgroup-value')
+                break
+        ctx.evaluations += 1
+        ctx.case(('subgroup', world, tuple(members), src, n, entry), nontrivial=members.index(src) != src)
+        ctx.count('subgroup-' + ('local!=global' if members.index(src) != src else 'local==global'))
 
 
 def pipeline_stream(ctx):
